@@ -188,6 +188,13 @@ PROPS["C20"] = dict(
     hang_is_violation=True,
 )
 
+# sanitizer legs of the thorough tier (see legs.py)
+for _pid, _legs in {"C01": ["miri"], "C02": ["miri"], "C03": ["miri", "asan", "plain-release"],
+                    "C05": ["miri-seeds"], "C06": ["miri-seeds"], "C16": ["miri", "asan"], "C17": ["miri", "asan"]}.items():
+    PROPS[_pid]["legs"] = {"thorough": _legs}
+    PROPS[_pid]["technique"] += "; thorough tier adds sanitizer legs over a reduced in-memory workload: " + ", ".join(_legs)
+    PROPS[_pid].setdefault("timeout", {})["thorough"] = 14400
+
 ORDER = ["C%02d" % i for i in range(1, 21)]
 
 
